@@ -2,7 +2,8 @@ From Coq Require Import List String.
 From Verif Require Import Base Dispatch DispatchVM DispatchPoly DispatchTorch DispatchCodec DispatchAnalysis
   DispatchHooks DispatchAllowlist DispatchMLNest DispatchEffects
   DispatchCli
-  DispatchInject.
+  DispatchInject
+  DispatchLoader.
 Import ListNotations.
 Open Scope string_scope.
 
@@ -11,7 +12,8 @@ Definition handlers : list (string -> list sexp -> option string) :=
   [handle_sev; handle_vm; handle_poly; handle_torch; handle_codec; handle_analysis;
    handle_hooks; handle_allow; handle_mlnest; handle_effects;
    handle_cli;
-   handle_inject].
+   handle_inject;
+   handle_loader].
 
 Fixpoint first_some (hs : list (string -> list sexp -> option string)) (cmd : string)
          (args : list sexp) : option string :=
